@@ -14,10 +14,12 @@ traces.  Per-thread half: a receiver whose producer is gone leaves the registry 
 that finds its ring empty (`drainAll`), so registered receivers ≤ live threads + exited
 threads with unread commands.
 
-Known gap (open finding D4, not a theorem): a `start` drained in a *later* cycle than its
-trace's commit (the two travel through different threads' queues) re-creates an entry that
-nothing removes.  The theorem below makes the gap explicit: the entry exists iff the id is
-started in a batch that does not also commit it.
+A `start` processed in a *later* batch than its trace's commit (the two travel through different
+threads' queues) would re-create an entry that nothing removes — the theorem below makes that
+explicit: the entry exists iff the id is started in a batch that does not also commit it.  The
+drain therefore has to hand over the start no later than the commit: that was defect D4, repaired
+in /repo by the second drain pass (`C03_second_pass_collects_all`; a commit first seen in the
+second pass waits for the next cycle, by which time the start, pushed before it, has been drained).
 -/
 namespace Fastrace
 
@@ -87,7 +89,7 @@ theorem C08_drain_batch (rxs : List (Nat × Ring Cmd)) : (drainAll rxs).2 = rxs.
     obtain ⟨t, r⟩ := hd
     simp [drainAll, Ring.drain, ih]
 
-/-! non-vacuity: the open finding D4 in one line — a start drained after its commit stays -/
+/-! non-vacuity: why the drain must not hand over a commit before its start (D4, repaired) — at the level of batches a start processed after its commit stays -/
 example : (cycleProcess id (cycleProcess id ⟨false, true, []⟩ [.commit 0]).1 [.start 0]).1.keys = [0] := by
   decide
 
